@@ -322,7 +322,8 @@ func (table *Table) DelAggregator(id int) error {
 
 	agg := conf.aggregators[id]
 	fmt.Println("len", len(conf.aggregators))
-	conf.aggregators = append(conf.aggregators[:id], conf.aggregators[id+1:]...)
+	// the capacity is capped so that append copies into a fresh array: concurrent Dispatch calls still read the old one
+	conf.aggregators = append(conf.aggregators[:id:id], conf.aggregators[id+1:]...)
 	fmt.Println("len", len(conf.aggregators))
 	agg.Shutdown()
 	table.config.Store(conf)
@@ -336,7 +337,8 @@ func (table *Table) DelBlacklist(index int) error {
 	if index >= len(conf.blacklist) {
 		return fmt.Errorf("Invalid index %d", index)
 	}
-	conf.blacklist = append(conf.blacklist[:index], conf.blacklist[index+1:]...)
+	// the capacity is capped so that append copies into a fresh array: concurrent Dispatch calls still read the old one
+	conf.blacklist = append(conf.blacklist[:index:index], conf.blacklist[index+1:]...)
 	table.config.Store(conf)
 	return nil
 }
@@ -359,7 +361,8 @@ func (table *Table) DelRewriter(id int) error {
 		return fmt.Errorf("Invalid index %d", id)
 	}
 
-	conf.rewriters = append(conf.rewriters[:id], conf.rewriters[id+1:]...)
+	// the capacity is capped so that append copies into a fresh array: concurrent Dispatch calls still read the old one
+	conf.rewriters = append(conf.rewriters[:id:id], conf.rewriters[id+1:]...)
 	table.config.Store(conf)
 	return nil
 }
@@ -382,7 +385,8 @@ func (table *Table) DelRoute(key string) error {
 		return nil
 	}
 
-	conf.routes = append(conf.routes[:toDelete], conf.routes[toDelete+1:]...)
+	// the capacity is capped so that append copies into a fresh array: concurrent Dispatch calls still read the old one
+	conf.routes = append(conf.routes[:toDelete:toDelete], conf.routes[toDelete+1:]...)
 	table.config.Store(conf)
 
 	err := route.Shutdown()
